@@ -49,7 +49,7 @@ PROPS = {
                     r'^request::IppRequestResponse::to_bytes$',
                     r'^verif_roundtrip::(lemma_scalar_roundtrip|lemma_token|lemma_delim|lemma_value_scalar|lemma_value|lemma_set|lemma_coll|lemma_members)$',
                     r'^verif_roundtrip::(lemma_pair_prefix|lemma_pair_values|lemma_pair_members|lemma_pair_map_members|lemma_vals_of)$',
-                    r'^verif_roundtrip::(lemma_attrs|lemma_abs_prefix_all|lemma_close_group|lemma_groups|lemma_attrs_roundtrip|lemma_message_roundtrip)$',
+                    r'^verif_roundtrip::(lemma_attrs|lemma_abs_prefix_all|lemma_close_group|lemma_groups|lemma_groups_base|lemma_attrs_roundtrip|lemma_message_roundtrip)$',
                     r'^verif_roundtrip::(lemma_coll_of_canonical|lemma_members_map_prefix)$',
                     r'^verif_machine::(m_run|pair_fold)$', r'^verif_spec::(aval|abs_vals|abs_map|spec_val_enc|set_enc|members_enc)$'],
         'kani': ['tables::table_value_tag', 'tables::table_delimiter_tag', 'tables::table_tag_none_outside'] + _K_RD_PLAIN,
